@@ -110,7 +110,7 @@ var rR16r = RuleRef{Name: "R16r", Doc: "raft ready loop (raftexample serveChanne
 		c.Add("R16r", fnName(fn), "every processed Ready is followed by Advance before the next select", fn.Pos(), len(bad) == 0, strings.Join(uniq(bad), "; "))
 	}
 	// --- apply loop ---
-	ap := c.P.Func("server", "handleClusterCommits")
+	ap := c.applyLoop()
 	if ap == nil {
 		c.Undecided("R16r", "anchor server.handleClusterCommits")
 		return
@@ -211,8 +211,34 @@ var rR16r = RuleRef{Name: "R16r", Doc: "raft ready loop (raftexample serveChanne
 	}
 	// conf changes are applied from the log only
 	var outside []string
+	// publishEntries and the helpers that only it (or one of them) calls
+	scope := map[*ssa.Function]bool{}
+	for _, f := range helperScope(pe, 3) {
+		scope[f] = true
+	}
+	for changed := true; changed; {
+		changed = false
+		for f := range scope {
+			if f == pe {
+				continue
+			}
+			for _, g := range c.P.allFuncs(firstPartyPkgs...) {
+				if scope[g] {
+					continue
+				}
+				for _, b := range g.Blocks {
+					for _, in := range b.Instrs {
+						if ci, ok := in.(ssa.CallInstruction); ok && callee(ci) == f && scope[f] {
+							delete(scope, f) // also called from elsewhere: not a private helper of the publish path
+							changed = true
+						}
+					}
+				}
+			}
+		}
+	}
 	for _, f := range c.P.allFuncs(firstPartyPkgs...) {
-		if f == pe {
+		if f == pe || scope[f] {
 			continue
 		}
 		for _, b := range f.Blocks {
